@@ -7,7 +7,8 @@
 From Coq Require Import List NArith String Bool.
 From Gen Require Import Tables.
 From Model Require Import Base Names Flt Matches Detect.
-From Proofs Require Import NamesFacts DetectRestrict DetectHints.
+From Model Require Import Declared.
+From Proofs Require Import NamesFacts DetectRestrict DetectHints DeclaredFacts.
 Import ListNotations.
 
 (* the probing order tries the hints first, in the order of the hint list *)
@@ -70,3 +71,26 @@ Print Assumptions C06_only_hints_qualify.
 Theorem C06_hints_not_similarity_keys : forall h x, In h HINT_NAMES -> is_cp_similar h x = false.
 Proof. exact hint_not_similar. Qed.
 Print Assumptions C06_hints_not_similarity_keys.
+
+(* the declaration matcher, concretely (Model/Declared.v; the correspondence driver uses THIS function
+   as the `declared` oracle, so a change to utils::any_specified_encoding shows up as a disagreement):
+   only the first 4096 bytes matter, a declared encoding is the canonical name of a capture, and the
+   expression modelled is the one in consts.rs today *)
+Theorem C06_declared_zone :
+  forall b1 b2, firstn (N.to_nat SEARCH_ZONE) b1 = firstn (N.to_nat SEARCH_ZONE) b2 ->
+    any_specified_encoding b1 = any_specified_encoding b2.
+Proof. exact declared_zone. Qed.
+Print Assumptions C06_declared_zone.
+
+Theorem C06_declared_sound :
+  forall b n, any_specified_encoding b = Some n ->
+    exists cap, iana_name (string_of_bytes cap) = Some n
+                /\ In cap (let v := ascii_view (firstn (N.to_nat SEARCH_ZONE) b) in captures (S (List.length v)) v).
+Proof. exact declared_sound. Qed.
+Print Assumptions C06_declared_sound.
+
+Theorem C06_regex_pinned :
+  RE_LITERAL = "(?:(?:encoding)|(?:charset)|(?:coding))(?:[\:= ]{1,10})(?:[""']?)([a-zA-Z0-9\-_]+)(?:[""']?)"%string
+  /\ SEARCH_ZONE = 4096%N.
+Proof. exact regex_literal_pinned. Qed.
+Print Assumptions C06_regex_pinned.
